@@ -12,7 +12,7 @@ MAX_RUNS = {"quick": 5000, "thorough": 200000}
 TECHNIQUE = "deterministic simulation: concurrent UDP sessions with uniquely tagged datagrams under seeded delay/reordering (no loss, no duplication) and an injected asynchronous receive error; multiset equality per session and destination"
 RULE = ("plans: entry (SOCKS5 UDP ASSOCIATE, reverse-UDP listener, HTTP CONNECT with Proxy-Protocol: udp) x middle hop (none; chained through the proxy's own http "
         "listener = inline frames; own quic listener with inline frames or QUIC datagrams incl. fragmentation; own socks listener) x direct exit to echoing origins; "
-        "1-6 interleaved sessions from 1-4 clients; payload sizes 0,1,1000,1472,9000,per-path maximum; destinations IPv4/IPv6/domain, several per session where the "
+        "1-6 interleaved sessions from 1-4 clients; payload sizes 0,1,1000,1472,9000,per-path maximum and every value around one QUIC datagram (1090-1210) and its multiples; destinations IPv4/IPv6/domain, several per session where the "
         "protocol allows; reordering by independent per-datagram delays; one class injects ECONNREFUSED on the proxy's upstream socket; non-trivial = >= 2 sessions "
         "or a payload larger than one QUIC packet, with at least one reply; distinct = event-order hash")
 LEVEL_TEXT = ("seeded exploration of the real UDP code paths (socks frames, reverse listener sessions, stream frames, QUIC datagram fragmentation and reassembly through real "
@@ -119,6 +119,10 @@ def gen(rng, tier, i):
         gap = rng.choice([0, 0, 1, 20, 300])
         for d in range(ndg):
             size = rng.choice(SIZES + ([maxpay] if rng.random() < 0.15 else []))
+            if rng.random() < 0.25:
+                # around the size of one QUIC datagram / one Ethernet frame and its first multiples: every single value
+                # there is a boundary for some header size (fragmenting or not, one fragment more or less)
+                size = rng.choice([1, 1, 2, 3]) * rng.randint(1090, 1210) + rng.choice([0, 0, rng.randint(-40, 40)])
             tag = b"<T%04d-%08x>" % (tagn, rng.getrandbits(32))
             tagn += 1
             body = tag + rng.randbytes(max(0, size - len(tag))) if size >= len(tag) else tag[:size] if size else b""
